@@ -229,3 +229,160 @@ Example C09_nonvacuous :
           [ [(0%nat, DLeft); (3%nat, DRight)]; [(1%nat, DLeft)]; [(2%nat, DLeft)]; [(5%nat, DLeft)]; [(7%nat, DLeft)] ]).
 Proof. split; [apply rvalidb_sound; vm_compute; reflexivity | vm_compute; reflexivity]. Qed.
 Print Assumptions C09_nonvacuous.
+
+(* ==== composition with C03 (work package compose1) ============================================================= *)
+From DBG Require Import Proofs.RecompKmers.
+
+(* ---- k-mer level, FULL ------------------------------------------------------------------------------------------ *)
+(* The k-mers of compress_graph's result are exactly the k-mers of the non-censored input nodes (canonical forms when
+   unstranded), as MULTISETS, for every valid graph and censor list.  Consequently, as soon as the surviving input nodes
+   carry each of their k-mers once (every graph built from a k-mer set does; [rvalid] itself only asks for distinct node
+   ENDS), each k-mer occurs exactly once in the result: [kmers_exact], the Prop decided by chk.c09.kmers.
+   Proof: node partition (C09_recompress_kmers_partial) + n_seq = sequence_of_path of the node path
+   (C09_recompress_nodes_partial) + C03_path_spelling, after showing that a node path of compress_graph - consecutive
+   nodes joined by sole mutual links - is a valid walk of the restricted graph in C03's sense; in stranded graphs a node
+   path never changes strand, in unstranded graphs canon (rc x) = canon x. *)
+Theorem C09_recompress_kmers : forall D reduce join K stranded, (forall a b, join a b = join b a) ->
+  forall (g : graph D) censor out paths,
+  rvalid D K stranded g -> compress_graph_paths D reduce join K stranded g censor = Some (out, paths) ->
+  Permutation (graph_kmers D K stranded out) (surv_kmers D K stranded g (survivors D g censor)) /\
+  (NoDup (surv_kmers D K stranded g (survivors D g censor)) -> kmers_exact D K stranded g censor out).
+Proof. exact recompress_kmers_exact. Qed.
+Print Assumptions C09_recompress_kmers.
+
+(* the bridge lemma: a node path of compress_graph is a valid walk of C03 *)
+Theorem C09_node_path_valid_walk : forall D join K stranded (g : graph D) S p,
+  winv D K stranded g S -> (forall x, In x p -> (fst x < length g)%nat) -> Linked D join K stranded g p ->
+  EdgeSpec.valid_walk D K stranded g p.
+Proof. exact Linked_valid_walk. Qed.
+Print Assumptions C09_node_path_valid_walk.
+
+(* non-vacuity: the surviving nodes of the example carry each canonical 4-mer once *)
+Example C09_nonvacuous_kmers :
+  NoDup (surv_kmers rpay 4 false ex_g (survivors rpay ex_g (Some [4; 6]%nat))).
+Proof. apply nodupb_sound. vm_compute. reflexivity. Qed.
+Print Assumptions C09_nonvacuous_kmers.
+
+(* ---- singleton_route at model level, FULL (composition with C01) ---------------------------------------------- *)
+(* The one-node-per-k-mer graph of a k-mer table T is T itself read as a graph (node sequence = key, same extension
+   byte, same payload).  "Well-formed" is spelled out: [tbl_ok] and [exts_sym] (C01's hypotheses on the table) and
+   [rvalid] of the singleton graph (C09's hypothesis; it contains "every extension leads to a present k-mer" - without
+   it the first step of compress_graph prunes dangling extensions that compress_kmers counts, and the two results
+   differ).  Then compress_graph and compress_kmers are the SAME run of AbstractWalk.compress: the static step
+   relations coincide, rnext (graph) = knext (table) for every node and side (C09_singleton_next), hence the vertex
+   lists of result node i and of output node i of compress_kmers are equal (C09_singleton_paths) and the two nodes
+   consist of the same k-mers (C09_singleton_route_nodes); in particular [same_partition], the Prop decided by
+   chk.c09.singleton_route (C09_singleton_route).  Neither C02_same_node_iff nor maximality is needed. *)
+From DBG Require Spec.CompressSpec Proofs.CompressRefine Proofs.SingletonRoute.
+
+Theorem C09_singleton_next : forall D join K stranded, (1 <= K)%nat -> forall T : Compress.table D,
+  CompressSpec.tbl_ok D K stranded T ->
+  forall i d, rnext D join K stranded T i d = CompressSpec.knext D join stranded T i d.
+Proof. exact SingletonRoute.rnext_knext. Qed.
+Print Assumptions C09_singleton_next.
+
+Theorem C09_singleton_paths : forall D reduce join K stranded, (1 <= K)%nat -> (forall a b, join a b = join b a) ->
+  forall T : Compress.table D,
+  CompressSpec.tbl_ok D K stranded T -> rvalid D K stranded T ->
+  forall out paths, compress_graph_paths D reduce join K stranded T None = Some (out, paths) ->
+  map (map fst) paths =
+  map (fun x => node_verts nat (fst (fst x)) (snd (fst x)) (snd x))
+      (CompressRefine.compress_struct D join stranded T (seq 0 (length T)) (seq 0 (length T))).
+Proof. exact SingletonRoute.singleton_paths. Qed.
+Print Assumptions C09_singleton_paths.
+
+Theorem C09_singleton_route_nodes : forall D reduce join K stranded, (1 <= K)%nat -> (forall a b, join a b = join b a) ->
+  forall T : Compress.table D,
+  CompressSpec.tbl_ok D K stranded T -> rvalid D K stranded T -> CompressSpec.exts_sym D stranded T ->
+  forall a paths b, compress_graph_paths D reduce join K stranded T None = Some (a, paths) ->
+  Compress.compress_kmers D reduce join stranded T = Some b ->
+  Forall2 (fun na nb => Permutation (node_kmers D K stranded na) (node_kmers D K stranded nb)) a b.
+Proof. exact SingletonRoute.singleton_route_nodes. Qed.
+Print Assumptions C09_singleton_route_nodes.
+
+Theorem C09_singleton_route : forall reduce join K stranded (T : Compress.table rpay) a b,
+  (1 <= K)%nat -> (forall x y, join x y = join y x) ->
+  CompressSpec.tbl_ok rpay K stranded T -> CompressSpec.exts_sym rpay stranded T -> rvalid rpay K stranded T ->
+  compress_graph rpay reduce join K stranded T None = Some a ->
+  Compress.compress_kmers rpay reduce join stranded T = Some b ->
+  same_partition K stranded a b.
+Proof. exact SingletonRoute.singleton_route_same_partition. Qed.
+Print Assumptions C09_singleton_route.
+
+(* non-vacuity of the singleton route: K = 4, unstranded, the canonical 4-mers of ACGTTGCAACTCCGA (two palindromes, a
+   hairpin) with extensions derived from membership, read as a table and as a one-k-mer-per-node graph: all three
+   hypotheses hold, and both routes produce five nodes *)
+From DBG Require Check.CompressHyp Proofs.CompressHypProofs.
+Definition C09_ex_keys : list dna :=
+  nodup (list_eq_dec N.eq_dec) (map canon (kmers 4 [0;1;2;3;3;2;1;0;0;1;3;1;1;2;0]%N)).
+Definition C09_ex_table : Compress.table rpay :=
+  map (fun p => (fst p, Compress.derive_exts false C09_ex_keys (fst p), (0%N, [N.of_nat (snd p)])))
+      (combine C09_ex_keys (seq 0 (length C09_ex_keys))).
+Example C09_nonvacuous_singleton :
+  CompressSpec.tbl_ok rpay 4 false C09_ex_table /\ CompressSpec.exts_sym rpay false C09_ex_table /\
+  rvalid rpay 4 false C09_ex_table /\
+  option_map (map fst) (option_map (map fst) (compress_graph rpay rpay_reduce (rpay_join 0) 4 false C09_ex_table None)) =
+    Some [[0;1;2;3]; [0;0;1;2]; [3;2;1;0]; [2;1;0;0;1]; [0;0;1;3;1;1;2;0]]%N /\
+  option_map (map fst) (option_map (map fst) (Compress.compress_kmers rpay rpay_reduce (rpay_join 0) false C09_ex_table)) =
+    Some [[0;1;2;3]; [0;0;1;2]; [3;2;1;0]; [2;1;0;0;1]; [0;0;1;3;1;1;2;0]]%N.
+Proof.
+  split; [apply CompressHypProofs.tbl_okb_sound; vm_compute; reflexivity|].
+  split; [apply CompressHypProofs.exts_symb_sound; vm_compute; reflexivity|].
+  split; [apply rvalidb_sound; vm_compute; reflexivity|].
+  split; vm_compute; reflexivity.
+Qed.
+Print Assumptions C09_nonvacuous_singleton.
+
+(* ---- terminal extensions, FULL (closes the inclusion-only clause of C09_recompress_nodes_partial) ---------------- *)
+(* Every result node's extension byte is EXACTLY the byte of its node path in the restricted input graph: the left
+   extensions of the first node of the path and the right extensions of the last one, each read in the orientation in
+   which the node is traversed (complemented when flipped) - nothing is lost, nothing invented: [exts_exact], the Prop
+   decided by chk.c09.exts.  Consequently the final fix_exts(None) of compress_graph is the IDENTITY on the graph
+   assembled by build_node (C09_final_fix_exts_identity; formerly an observation from the mutation run).
+   Proof idea: an extension of an end node a of a path, through its exterior side, resolves in the restricted graph to a
+   surviving node y entered through side t (walk invariant).  If (y, t) were glued to a neighbour inside y's path, the
+   sole mutual link there would - by symmetry and uniqueness of y's extension on side t - lead back to a through a's
+   exterior side, which is impossible in a path without repeated node.  So (y, t) is an exterior end of its path, the
+   extended k-mer is (up to strand) a terminal k-mer of a result node (end k-mers of a spelled path: C03_path_spelling),
+   and find_link of the result graph finds it. *)
+From DBG Require Import Proofs.RecompExts.
+
+Theorem C09_recompress_exts : forall D reduce join K stranded, (forall a b, join a b = join b a) ->
+  forall (g : graph D) censor out paths,
+  rvalid D K stranded g -> compress_graph_paths D reduce join K stranded g censor = Some (out, paths) ->
+  exts_exact D K stranded g censor out.
+Proof. exact recompress_exts_exact. Qed.
+Print Assumptions C09_recompress_exts.
+
+(* the same, node by node along the node paths the model records *)
+Theorem C09_recompress_node_exts : forall D reduce join K stranded, (forall a b, join a b = join b a) ->
+  forall (g : graph D) censor out paths,
+  rvalid D K stranded g -> compress_graph_paths D reduce join K stranded g censor = Some (out, paths) ->
+  exists g1, restrict D K stranded g (survivors D g censor) = Some g1 /\
+    Forall2 (fun n p => sequence_of_path D K g1 p = Some (n_seq D n) /\ path_exts D g1 p = Some (n_exts D n)) out paths.
+Proof. exact recompress_node_exts. Qed.
+Print Assumptions C09_recompress_node_exts.
+
+Theorem C09_final_fix_exts_identity : forall D reduce join K stranded, (forall a b, join a b = join b a) ->
+  forall (g : graph D) censor g1 r,
+  rvalid D K stranded g ->
+  fix_exts D K stranded g (Some (initial_avail (length g) censor)) = Some g1 ->
+  rb_loop D reduce join K stranded g1 (seq 0 (length g)) (initial_avail (length g) censor) = Some r ->
+  fix_exts D K stranded (map fst r) None = Some (map fst r).
+Proof. exact final_fix_exts_identity. Qed.
+Print Assumptions C09_final_fix_exts_identity.
+
+(* non-vacuity: in the example above the merged node ATGACCAT (path node 0 forward, node 3 flipped) gets the left
+   extensions of node 0 and the complemented left extensions of node 3 - both empty after the restriction -, and CCCC keeps
+   exactly the extensions that still resolve *)
+Example C09_nonvacuous_exts :
+  exts_exact rpay 4 false ex_g (Some [4; 6]%nat)
+    [ ([0;3;2;0;1;1;0;3], 0, (1,[0;3])); ([1;1;3;3;2;1;1;0;0;3;0;0;3], 128, (0,[1])); ([1;1;1;1], 38, (0,[2]));
+      ([0;0;3;3], 8, (0,[5])); ([2;1;1;1], 32, (0,[7])) ].
+Proof.
+  eapply (C09_recompress_exts rpay rpay_reduce (rpay_join 0) 4 false).
+  - intros a b. unfold rpay_join. reflexivity.
+  - exact (proj1 C09_nonvacuous).
+  - exact (proj2 C09_nonvacuous).
+Qed.
+Print Assumptions C09_nonvacuous_exts.
